@@ -269,7 +269,11 @@ def run(tier, seed):
             events, observed, attempts = scenario(ck, trial, tier, cs0)
         except Exception:
             import traceback
-            ck.disagree('scenario %d crashed: %s' % (trial, traceback.format_exc()[-600:]), {'trial': trial})
+            tb = traceback.format_exc()
+            if 'could not mine a block' in tb:
+                ck.count('generator-gave-up(difficulty)')
+                continue
+            ck.disagree('scenario %d crashed: %s' % (trial, tb[-600:]), {'trial': trial})
             continue
         reqs.append(('book_run', [], [NP.TIME_TO_SECOND_CONNECTION_ATTEMPT, NP.MAX_TIME_BETWEEN_CONNECTION_ATTEMPTS,
                                       NP.MAX_CONNECTION_ATTEMPTS, events]))
